@@ -132,7 +132,17 @@ def run_cases(cases, want_parse=True):
                         with pyimpl.time_limit(0.5):
                             r_impl = pyimpl.run_lparse(objs[n], s, i)
                     except pyimpl.SlowCase:
-                        slow = True   # exponential backtracking: a runtime effect, not semantics; skip
+                        slow = True   # exponential backtracking: a runtime effect, not semantics; skip ...
+                        # ... unless it does not even terminate on a TRIVIAL input (exponential blow-up needs a long
+                        # input; a loop that never reaches its fixpoint hangs on "" too): that is a totality violation
+                        for tiny in ("", s[:1]):
+                            try:
+                                with pyimpl.time_limit(4.0):
+                                    pyimpl.run_lparse(objs[n], tiny, 0)
+                            except pyimpl.SlowCase:
+                                lines.append(" ".join(["LPARSE", "0", str(rid), "0"] + pyimpl.str_tokens(tiny)))
+                                meta.append((c, "lparse", n, tiny, 0, "HANG"))
+                                break
                         break
                     lines.append(" ".join(["LPARSE", "0", str(rid), str(i)] + st))
                     meta.append((c, "lparse", n, s, i, r_impl))
@@ -204,6 +214,9 @@ def classify(rec):
         out.add("build")
         return out
     if impl == model:
+        return out
+    if impl == "HANG":
+        out.add("inconclusive" if model == "OOF" else "hang")
         return out
     if model == "OOF" or impl == "REC":
         out.add("inconclusive")
